@@ -28,6 +28,13 @@ def pools(seed, nq=6, nt=7):
     Q = [rand_pwm(rng, L) for L in lens]
     T = [rand_pwm(rng, rng.randint(4, 11)) for _ in range(nt)]
     T[0] = Q[1].copy()
+    # a database that contains one motif three times (merged collections): exactly tied p-values, at low target indices, so that an
+    # n_nearest cut can fall inside the tie while strictly better targets sit at higher indices
+    if nt > 4:
+        T[2] = T[1].copy()
+        T[4] = T[1].copy()
+        if nq > 3:
+            T[nt - 1] = Q[3].copy()
     return Q, T
 
 
